@@ -12,3 +12,5 @@ reg("C20", "exploration", [
 ])
 reg("C12", "exploration", [P("tex", "all")])
 reg("C15", "exploration", [P("solids", "all")])
+reg("C17", "exploration", [P("curve", "spline")])
+reg("C18", "exploration", [P("curve", "angle")])
